@@ -468,7 +468,7 @@ def macro_cases(tier, env_state):
     lvn = [LV('n')]
     open2 = body(None, ictx, lvn)                                  # depth-1 macros of the loop variable
     loop = lambda b: ('FOR', num(1), num(3), None, None, 'n', b, lit(';'), None)
-    each = lambda b: ('FOREACH', (lit('1'), lit('2'), lit('3')), 'n', b, lit(','), lit('&'))
+    each = lambda b: ('FOREACH', (lit('1'), lit('2'), lit('3')), 'n', b, lit(','), lit('='))
     d2 = body(None, ictx, i1) + body(None, sctx, d1) + [S(loop(b)) for b in open2] + [S(each(b)) for b in open2]
     d2 += body(None, hctx, i1) + body(None, hsctx, d1)
     d2 += C
@@ -948,10 +948,11 @@ def _shard(shard, nshards, tier, seed):
                 else:
                     found = []
                     try:
-                        text = M.render(ast, base_style(ast, w.defs) or {}, w.defs, (']',))
+                        bst = base_style(ast, w.defs) or {}
+                        text = M.render(ast, bst, w.defs, (']',))
                         expected(ast, w.state, w.mode(False))
                         expected(ast, w.state, w.mode(True))
-                        found = [(k, text, {}, dt) for k, dt in check_text(w, ast, text, stats)]
+                        found = [(k, text, bst, dt) for k, dt in check_text(w, ast, text, stats)]
                         stats.counters['config_variants'] += 1
                     except (Illegal, Undefined):
                         pass
